@@ -261,8 +261,10 @@ def run(ctx):
     # ---------------- R4
     r4 = ctx.rule("C08-R4", "the client's name map is written only by buffer_parse (insert under the client's own name) and by the Close / error / refused-batch paths (remove); Bind/Describe rewriting reads only that map", floor=4)
     allowed = {"insert": {"pgcat::client::Client::buffer_parse"},
-               "remove": {H, ENSURE + "::{closure#0}", "pgcat::client::Client::forget_closed_statement"},   # the last one: a client Close, applied when it is read (D33)
-               "retain": {"pgcat::client::Client::forget_buffered_prepared_statements"},
+               # a client Close, applied when it is read (D33); the statements of a refused batch. NOT the re-prepare helper: a Parse pgcat sends on its own
+               # behalf can fail for reasons that pass (the transaction is in the failed state), the client's statement is still the client's (D51)
+               "remove": {H, "pgcat::client::Client::forget_closed_statement", "pgcat::client::Client::forget_buffered_prepared_statements"},
+               "retain": set(),
                "get": {"pgcat::client::Client::buffer_bind::{closure#0}", "pgcat::client::Client::buffer_describe::{closure#0}", ENSURE + "::{closure#0}"}}
     seen = {}
     for c in F.all_calls(HM):
@@ -278,6 +280,12 @@ def run(ctx):
         # reading the map cannot change which statement a name stands for: any method of Client may look a name up (the routing look-up added for D47 does)
         r4.check(c.body.name in allowed.get(m, set()) or (m in ("get", "contains_key") and c.body.name.startswith("pgcat::client::Client::")), "%s@%s" % (m, c.body.name.replace("pgcat::client::", "")), "HashMap::%s on Client.prepared_statements" % m,
                  "unexpected HashMap::%s on Client.prepared_statements in %s" % (m, c.body.name), c.where())
+        if c.body.name.startswith("pgcat::client::Client::forget_buffered_prepared_statements") and m in ("remove", "retain"):
+            # a refused batch forgets the names *it* registered: the key comes from the buffered Parse message's own name, not from the
+            # rewritten name (which every statement with the same text shares) - D52
+            src = {o.call.name for o in origins(c.body, c.args[1], taint=True) if o.kind == "call"} if m == "remove" and len(c.args) > 1 else set()
+            r4.check("pgcat::messages::Parse::get_name" in src, "refused-batch-forgets-by-client-name", "the refused batch's names are removed by the name the client gave them (Parse::get_name of the buffered message)",
+                     "forget_buffered_prepared_statements matches on the rewritten PGCAT_n name: an earlier, acknowledged statement of the client with the same text is forgotten together with the refused batch - its next Bind is answered with `does not exist` and the client is disconnected", c.where())
         if m == "insert":
             src = {o.call.name for o in origins(c.body, c.args[1]) if o.kind == "call"}
             r4.check("pgcat::messages::Parse::get_name" in src, "insert-key", "the key is the client's own statement name (Parse::get_name of the message)", "the insert key does not come from the client's Parse message: %s" % sorted(src))
